@@ -5,7 +5,9 @@
 // and on seeded longer strings, for every end-of-line policy; match result, consumed length, the span
 // handed to the content action and the cursor after a local failure are compared with the independent
 // scanner cpp/oracles/lua_longbracket.hpp.
+#include <cstring>
 #include <tao/pegtl.hpp>
+#include <tao/pegtl/buffer_input.hpp>
 #include <tao/pegtl/contrib/raw_string.hpp>
 
 #include <type_traits>
@@ -174,6 +176,65 @@ namespace
       return r;
    }
 
+   // the same rule with actions attached but disabled from the top (what at<>, not_at<>, disable<> do to it): same result, no action call
+   template< typename Grammar, template< typename... > class Action, typename Eol, pegtl::tracking_mode T >
+   res run_disabled( const char* b, const char* e )
+   {
+      G.base = b;
+      G.ncontent = 0;
+      G.nrest = 0;
+      G.rest_begin = 0;
+      window_hit = false;
+      pegtl::memory_input< T, Eol, const char* > in( b, e, "c16" );
+      res r;
+      try {
+         r.ok = pegtl::parse< Grammar, Action, pegtl::normal, pegtl::apply_mode::nothing, pegtl::rewind_mode::required >( in );
+      }
+      catch( ... ) {
+         r.threw = true;
+      }
+      r.cursor = std::size_t( in.current() - b );
+      r.window = window_hit;
+      ++V.evaluations;
+      return r;
+   }
+
+   // incremental input: a reader that hands out Step bytes per call, buffer chunk Chunk (the bracket, the skipped line
+   // ending and the closing bracket then straddle the end of the buffered data at every offset)
+   struct step_reader
+   {
+      const char* p;
+      const char* e;
+      std::size_t step;
+      std::size_t operator()( char* buf, const std::size_t len )
+      {
+         const std::size_t n = std::min( { len, step, std::size_t( e - p ) } );
+         std::memcpy( buf, p, n );
+         p += n;
+         return n;
+      }
+   };
+
+   template< typename Grammar, typename Eol, std::size_t Chunk >
+   res run_incremental( const char* b, const char* e, const std::size_t step )
+   {
+      G.ncontent = 0;
+      G.nrest = 0;
+      window_hit = false;
+      res r;
+      pegtl::buffer_input< step_reader, Eol, const char*, Chunk > in( "c16", std::size_t( e - b ) + Chunk + 8, step_reader{ b, e, step } );
+      try {
+         r.ok = pegtl::parse< Grammar, pegtl::nothing, pegtl::normal, pegtl::apply_mode::action, pegtl::rewind_mode::required >( in );
+      }
+      catch( ... ) {
+         r.threw = true;
+      }
+      r.cursor = in.byte();
+      r.window = window_hit;
+      ++V.evaluations;
+      return r;
+   }
+
    // ------------------------------------------------------------------ judging
    struct where
    {
@@ -295,6 +356,20 @@ namespace
          if( flags & DO_NOACTION ) {
             w.how = "direct, rewind_mode::required, no action";
             check_direct( w, o, run< RAW, pegtl::nothing, pegtl::rewind_mode::required, Eol, T >( b, e ), false );
+            w.how = "direct, rewind_mode::required, actions attached, apply_mode::nothing";
+            {
+               const res r = run_disabled< RAW, act, Eol, T >( b, e );
+               check_direct( w, o, r, false );
+               if( G.ncontent != 0 ) viol( "C16|" + *w.inst + "|content-action-while-disabled", w, describe( o ), r );
+               V.count( "disabled-actions-runs" );
+            }
+            if constexpr( T == pegtl::tracking_mode::eager ) {
+               w.how = "buffer_input, reader hands out 1 byte per call, Chunk 1";
+               check_direct( w, o, run_incremental< RAW, Eol, 1 >( b, e, 1 ), false );
+               w.how = "buffer_input, reader hands out 3 bytes per call, Chunk 2";
+               check_direct( w, o, run_incremental< RAW, Eol, 2 >( b, e, 3 ), false );
+               V.count( "incremental-input-runs", 2 );
+            }
          }
          if constexpr( Ctx ) {
             if( flags & DO_CONTEXT ) {
